@@ -1,3 +1,436 @@
 package main
 
-func (w *world) oracleScope() string { return "" }
+import (
+	"sort"
+	"strconv"
+	"strings"
+
+	"istio.io/istio/pilot/pkg/model"
+	"istio.io/istio/pkg/config"
+	"verifharness/internal/wire"
+)
+
+// ---------------------------------------------------------------- canonical printing
+
+func showSvc(s *model.Service) string {
+	ports := make([]string, 0, len(s.Ports))
+	for _, p := range s.Ports {
+		ports = append(ports, strconv.Itoa(p.Port))
+	}
+	al := make([]string, 0, len(s.Attributes.Aliases))
+	for _, a := range s.Attributes.Aliases {
+		al = append(al, wire.Enc(a.Namespace+"/"+string(a.Hostname)))
+	}
+	j := func(l []string) string {
+		if len(l) == 0 {
+			return "-"
+		}
+		return strings.Join(l, "+")
+	}
+	return strings.Join([]string{wire.Enc(svcID(s)), wire.Enc(string(s.Hostname)), wire.Enc(s.Attributes.Namespace), j(ports), j(al)}, "|")
+}
+
+func showSvcs(l []*model.Service, sorted bool) string {
+	if len(l) == 0 {
+		return "-"
+	}
+	items := make([]string, 0, len(l))
+	if sorted {
+		c := append([]*model.Service(nil), l...)
+		sort.SliceStable(c, func(i, j int) bool { return c[i].Hostname < c[j].Hostname })
+		l = c
+	}
+	for _, s := range l {
+		items = append(items, showSvc(s))
+	}
+	return strings.Join(items, ",")
+}
+
+func showCfgs(l []*config.Config) string {
+	if len(l) == 0 {
+		return "-"
+	}
+	items := make([]string, 0, len(l))
+	for _, c := range l {
+		items = append(items, wire.Enc(c.Namespace+"/"+c.Name))
+	}
+	return strings.Join(items, ",")
+}
+
+func showDRs(sc *model.SidecarScope) string {
+	m := model.VerifC07ScopeDestinationRules(sc)
+	if len(m) == 0 {
+		return "-"
+	}
+	hosts := make([]string, 0, len(m))
+	for h := range m {
+		hosts = append(hosts, string(h))
+	}
+	sort.Strings(hosts)
+	items := make([]string, 0, len(hosts))
+	for _, h := range hosts {
+		var cs []string
+		for _, c := range m[hostName(h)] {
+			var from []string
+			for _, f := range model.VerifC07From(c) {
+				from = append(from, wire.Enc(f.Namespace+"/"+f.Name))
+			}
+			cs = append(cs, strings.Join(from, "+"))
+		}
+		items = append(items, wire.Enc(h)+">"+strings.Join(cs, "&"))
+	}
+	return strings.Join(items, ",")
+}
+
+func showScope(sc *model.SidecarScope) string {
+	if sc == nil {
+		return "nil-scope"
+	}
+	var ls []string
+	for _, l := range sc.EgressListeners {
+		ls = append(ls, showSvcs(l.Services(), false)+"/"+showCfgs(l.VirtualServices()))
+	}
+	return strings.Join([]string{
+		"scope=" + wire.Enc(sc.Namespace+"/"+sc.Name),
+		"S=" + showSvcs(sc.Services(), true),
+		"L=" + strings.Join(ls, ";"),
+		"D=" + showDRs(sc),
+	}, " ")
+}
+
+func (w *world) scopeFor(ns string, lbl map[string]string) *model.SidecarScope {
+	p := &model.Proxy{Type: model.SidecarProxy, ConfigNamespace: ns, Labels: lbl, Metadata: &model.NodeMetadata{Namespace: ns, Labels: lbl}}
+	p.SetSidecarScope(w.ps)
+	return p.SidecarScope
+}
+
+func (w *world) gatewayScopeFor(ns string) *model.SidecarScope {
+	p := &model.Proxy{Type: model.Router, ConfigNamespace: ns, Metadata: &model.NodeMetadata{Namespace: ns}}
+	p.SetSidecarScope(w.ps)
+	return p.SidecarScope
+}
+
+func (w *world) queryScope(t []string) string {
+	switch {
+	case t[0] == "scope" && len(t) == 3:
+		lbl, _ := decLabels(t[2])
+		return showScope(w.scopeFor(wire.Dec(t[1]), lbl))
+	case t[0] == "gw" && len(t) == 2:
+		return showScope(w.gatewayScopeFor(wire.Dec(t[1])))
+	}
+	return "bad-op"
+}
+
+// ---------------------------------------------------------------- oracle
+//
+// The property statement evaluated on the real SidecarScope with an oracle written from the API
+// documentation (exportTo, Sidecar egress hosts), independent of the Lean model and of the
+// functions under test (own wildcard cover test, own host parsing).
+
+// covers: the documented meaning of an egress / VirtualService host pattern.
+func covers(pattern, name string) bool {
+	if pattern == name {
+		return true
+	}
+	if len(pattern) == 0 || pattern[0] != '*' {
+		return false
+	}
+	suf := pattern[1:]
+	if len(name) > 0 && name[0] == '*' {
+		// a wildcard name is covered by a shorter-or-equal wildcard pattern with a suffix of its suffix
+		return len(name) >= len(pattern) && strings.HasSuffix(name[1:], suf)
+	}
+	return strings.HasSuffix(name, suf)
+}
+
+type egressHost struct {
+	excluded bool
+	ns, pat  string
+}
+
+func parseEgress(cfgNs, h string) (egressHost, bool) {
+	parts := strings.Split(h, "/")
+	if len(parts) != 2 {
+		return egressHost{}, false
+	}
+	e := egressHost{ns: parts[0], pat: parts[1]}
+	if strings.HasPrefix(e.ns, "~") {
+		e.excluded = true
+		e.ns = e.ns[1:]
+		if e.ns == "" {
+			e.ns = "*"
+		}
+	}
+	if e.ns == "." {
+		e.ns = cfgNs
+	}
+	return e, true
+}
+
+func importsHost(cfgNs string, hosts []string, svcNs, hostname string) bool {
+	imp := false
+	for _, h := range hosts {
+		e, ok := parseEgress(cfgNs, h)
+		if !ok || (e.ns != "*" && e.ns != svcNs) || !covers(e.pat, hostname) {
+			continue
+		}
+		if e.excluded {
+			return false
+		}
+		imp = true
+	}
+	return imp
+}
+
+func (w *world) vsExportDoc(v *vsSpec) []string {
+	e := v.exportTo
+	if len(e) == 0 {
+		if w.mesh.nilVS {
+			e = []string{"*"}
+		} else {
+			e = w.mesh.defVS
+		}
+	}
+	return e
+}
+
+// documented VirtualService visibility: * / . (own namespace) / namespace; ~ (not allowed by
+// validation) hides unless * is present.
+func (w *world) vsVisibleDoc(v *vsSpec, ns string) bool {
+	e := w.vsExportDoc(v)
+	star, none, hit := false, false, false
+	for _, x := range e {
+		switch {
+		case x == "*":
+			star = true
+		case x == "~":
+			none = true
+		case x == ns, x == "." && v.ns == ns:
+			hit = true
+		}
+	}
+	return star || (hit && !none)
+}
+
+func (w *world) drVisibleDoc(d *drSpec, ns string) bool {
+	if d.selector {
+		return d.ns == ns
+	}
+	e := d.exportTo
+	if len(e) == 0 {
+		// the mesh default is honoured for "." only, everything else means public
+		for _, x := range w.mesh.defDR {
+			if x == "." && !w.mesh.nilDR {
+				return d.ns == ns
+			}
+		}
+		return true
+	}
+	for _, x := range e {
+		if x == "*" || x == ns || (x == "." && d.ns == ns) {
+			return true
+		}
+	}
+	return false
+}
+
+func (w *world) vsByKey(key string) *vsSpec {
+	for i := range w.vss {
+		if w.vss[i].ns+"/"+w.vss[i].name == key {
+			return &w.vss[i]
+		}
+	}
+	return nil
+}
+
+func (w *world) drByKey(key string) *drSpec {
+	for i := range w.drs {
+		if w.drs[i].ns+"/"+w.drs[i].name == key {
+			return &w.drs[i]
+		}
+	}
+	return nil
+}
+
+func vsDestHosts(v *vsSpec) map[string]bool {
+	out := map[string]bool{}
+	for _, h := range v.http {
+		for _, d := range h.dests {
+			out[d.host] = true
+		}
+	}
+	for _, d := range v.tcp {
+		out[d.host] = true
+	}
+	return out
+}
+
+// oracleOneScope checks one computed scope against the property.
+func (w *world) oracleOneScope(sc *model.SidecarScope, ns string, gateway bool) string {
+	type lst struct {
+		hosts    []string
+		portBind bool
+	}
+	var listeners []lst
+	if sc.Sidecar != nil && len(sc.Sidecar.Egress) > 0 {
+		for _, e := range sc.Sidecar.Egress {
+			pb := e.Port != nil && e.Port.Number != 0 && strings.ToUpper(e.Port.Protocol) != "HTTP_PROXY"
+			listeners = append(listeners, lst{e.Hosts, pb})
+		}
+	} else {
+		listeners = []lst{{[]string{"*/*"}, false}}
+	}
+	// soundness: every delivered service is exported to ns and imported
+	inScope := map[string]bool{}
+	byHost := map[string]*model.Service{}
+	for _, s := range sc.Services() {
+		sp := w.byID[svcID(s)]
+		if sp == nil {
+			return "scope-service-unknown " + svcID(s)
+		}
+		inScope[sp.id] = true
+		if byHost[sp.hostname] != nil {
+			return "scope-duplicate-hostname " + sp.hostname
+		}
+		byHost[sp.hostname] = s
+		if string(s.Hostname) != sp.hostname || s.Attributes.Namespace != sp.ns {
+			return "scope-service-identity-changed " + sp.id
+		}
+		if !w.documentedVisible(sp, ns) {
+			return "leak-not-exported " + sp.id + " " + ns
+		}
+		imported := false
+		for _, l := range listeners {
+			if importsHost(ns, l.hosts, sp.ns, sp.hostname) {
+				imported = true
+			}
+		}
+		if !imported && !gateway {
+			// destination of a VirtualService that is itself exported to ns and imported
+			for _, l := range sc.EgressListeners {
+				for _, c := range l.VirtualServices() {
+					v := w.vsByKey(c.Namespace + "/" + c.Name)
+					if v != nil && vsDestHosts(v)[sp.hostname] {
+						imported = true
+					}
+				}
+			}
+		}
+		if !imported {
+			return "leak-not-imported " + sp.id + " " + ns
+		}
+		// delivered ports are ports of the service (or of a service with the same hostname and
+		// namespace it was merged with)
+		for _, p := range s.Ports {
+			ok := false
+			for i := range w.svcs {
+				if w.svcs[i].hostname != sp.hostname || w.svcs[i].ns != sp.ns {
+					continue
+				}
+				for _, q := range w.svcs[i].ports {
+					if q.num == p.Port {
+						ok = true
+					}
+				}
+			}
+			if !ok {
+				return "scope-port-invented " + sp.id
+			}
+		}
+	}
+	// rules: every selected VirtualService / DestinationRule is exported to ns
+	for _, l := range sc.EgressListeners {
+		for _, c := range l.VirtualServices() {
+			v := w.vsByKey(c.Namespace + "/" + c.Name)
+			if v == nil {
+				return "vs-unknown " + c.Name
+			}
+			if !w.vsVisibleDoc(v, ns) {
+				return "vs-not-exported " + v.ns + "/" + v.name + " " + ns
+			}
+		}
+		for _, s := range l.Services() {
+			sp := w.byID[svcID(s)]
+			if sp == nil || !w.documentedVisible(sp, ns) {
+				return "listener-leak-not-exported " + svcID(s) + " " + ns
+			}
+		}
+	}
+	if w.enhanced {
+		for _, cs := range model.VerifC07ScopeDestinationRules(sc) {
+			for _, c := range cs {
+				for _, f := range model.VerifC07From(c) {
+					d := w.drByKey(f.Namespace + "/" + f.Name)
+					if d == nil {
+						return "dr-unknown " + f.Name
+					}
+					if !w.drVisibleDoc(d, ns) {
+						return "dr-not-exported " + d.ns + "/" + d.name + " " + ns
+					}
+				}
+			}
+		}
+	}
+	// completeness: a visible service matched by a port-unrestricted egress host is delivered,
+	// unless displaced by a visible service with the same hostname
+	for i := range w.svcs {
+		sp := &w.svcs[i]
+		if !w.documentedVisible(sp, ns) || !w.exportWellFormed(sp) {
+			continue
+		}
+		want := false
+		for _, l := range listeners {
+			if !l.portBind && importsHost(ns, l.hosts, sp.ns, sp.hostname) {
+				want = true
+			}
+		}
+		if !want || inScope[sp.id] {
+			continue
+		}
+		win := byHost[sp.hostname]
+		if win == nil {
+			// known corner, reported separately: a second service with the same (hostname, namespace)
+			// shadowed in HostnameAndNamespace by one that is not visible (exact-host fast path)
+			if w.shadowedByInvisible(sp, ns) {
+				continue
+			}
+			return "missing-no-winner " + sp.id + " " + ns
+		}
+		wsp := w.byID[svcID(win)]
+		if wsp == nil || !w.documentedVisible(wsp, ns) {
+			return "missing-winner-not-visible " + sp.id + " " + ns
+		}
+	}
+	return ""
+}
+
+// shadowedByInvisible: another service with the same hostname and namespace exists that is not
+// visible to ns (the index keeps one service per (hostname, namespace)).
+func (w *world) shadowedByInvisible(sp *svcSpec, ns string) bool {
+	for i := range w.svcs {
+		o := &w.svcs[i]
+		if o.id != sp.id && o.hostname == sp.hostname && o.ns == sp.ns && !w.documentedVisible(o, ns) {
+			return true
+		}
+	}
+	return false
+}
+
+func (w *world) oracleScope() string {
+	for _, t := range w.queries {
+		switch {
+		case t[0] == "scope" && len(t) == 3:
+			lbl, _ := decLabels(t[2])
+			ns := wire.Dec(t[1])
+			if v := w.oracleOneScope(w.scopeFor(ns, lbl), ns, false); v != "" {
+				return v
+			}
+		case t[0] == "gw" && len(t) == 2:
+			ns := wire.Dec(t[1])
+			if v := w.oracleOneScope(w.gatewayScopeFor(ns), ns, true); v != "" {
+				return v
+			}
+		}
+	}
+	return ""
+}
